@@ -42,6 +42,7 @@ def main():
         demo = c[0] if c else demo
     rc1, out1 = sh('sh %s' % demo, cwd=wt)
     meta['demo_with_change'] = dict(rc=rc1, tail=out1[-400:])
+    sh('git apply -R %s || git checkout -- . ' % patch, cwd=wt)      # (-R also removes files the patch added)
     sh('git checkout -- . ', cwd=wt)
     rc, out = sh('make b 2>&1 | tail -1', cwd=wt)
     rc2, out2 = sh('sh %s' % demo, cwd=wt)
